@@ -252,21 +252,10 @@ func observe(v reflect.Value, shape []field, prefix string, s *svc, ver int, not
 }
 
 func classify(err error) string {
-	switch {
-	case err == nil:
+	if err == nil {
 		return "ok"
-	case errors.Is(err, setec.ErrNoFields):
-		return "nofields"
-	default:
-		msg := err.Error()
-		switch {
-		case bytes.Contains([]byte(msg), []byte("empty secret name")):
-			return "emptyname"
-		case bytes.Contains([]byte(msg), []byte("unsupported type")):
-			return "unsupported"
-		}
-		return "error:" + msg
 	}
+	return "rejected" // why, and in which words, is not part of the property
 }
 
 // runCase pushes one shape through the real code. mode "apply": ParseFields + Fields.Apply on an existing store
